@@ -12,6 +12,8 @@ package action
 //@   ensures [partition] len(keep) + len(remaining) == len(manifests)
 //@   ensures [keep-only-keep] forall i int :: 0 <= i && i < len(keep) ==> keepPolicy(keep[i])
 //@   ensures [remaining-not-keep] forall i int :: 0 <= i && i < len(remaining) ==> !keepPolicy(remaining[i])
+//@   ensures [heads-kept] (forall i int :: 0 <= i && i < len(keep) ==> keep[i].Head != nil) && (forall i int :: 0 <= i && i < len(remaining) ==> remaining[i].Head != nil)
+//@   loop 1 invariant [heads] (forall i int :: 0 <= i && i < len(keep) ==> keep[i].Head != nil) && (forall i int :: 0 <= i && i < len(remaining) ==> remaining[i].Head != nil)
 //@   loop 1 invariant [count] len(keep) + len(remaining) == #iter
 //@   loop 1 invariant [keep] forall i int :: 0 <= i && i < len(keep) ==> keepPolicy(keep[i])
 //@   loop 1 invariant [rem] forall i int :: 0 <= i && i < len(remaining) ==> !keepPolicy(remaining[i])
@@ -421,7 +423,8 @@ package action
 //@   ensures [C06] [dry-run-no-mutation] old(u.DryRun) ==> Kmutated == old(Kmutated) && Dwritten == old(Dwritten)
 
 //@ func (*Uninstall).deleteRelease
-//@   props C03
+//@   props C03 C08
+//@   assert [uninstall-in-uninstall-order] [C08] at "releaseutil.SortManifests(manifests" err == nil ==> (forall a, b int :: 0 <= a && a < b && b < len(files) ==> !kindBefore(files[b].Head.Kind, files[a].Head.Kind, releaseutil.UninstallOrder))
 //@   requires u != nil && cfgReady(u.cfg) && rel != nil
 //@   ensures [hooks-kept] len(rel.Hooks) == old(len(rel.Hooks)) && (forall j int :: 0 <= j && j < len(rel.Hooks) ==> rel.Hooks[j] == old(rel.Hooks[j]))
 //@   ensures [storage-untouched] Dex == old(Dex) && Dst == old(Dst) && Dname == old(Dname) && Dver == old(Dver)
